@@ -61,7 +61,7 @@ def observe(arg):
     for t in arg["items"]:
         T = t.get("T")
         if T and "neutron" not in _tab(T).properties:
-            nsf.init(_tab(T))          # a private table has neutron data only after nsf.init
+            nsf.init(_tab(T))          # a private table has neutron data only after nsf.init (T2: customised masses / densities)
         try:
             kind = t["kind"]
             if kind == "scat":
@@ -129,10 +129,22 @@ def _scat(t, T):
     import periodictable as P
     g, kw = _formula(t, T)
     wkw, lams, vec = _wl(t)
-    ps = parts_of(g)
+    if "wavelength_ignored" in t:
+        wkw = dict(wkw, wavelength=t["wavelength_ignored"])      # "If energy is specified then wavelength is ignored"
     via = t.get("via", "formula")
+    text = None
+    if via == "sld-string-table":
+        # the compound as text, read with table=T by the calculator itself (neutron_sld route for the SLDs)
+        text = str(g)
+        g = P.formula(text, table=_tab(T) if T else None, **kw)
+    ps = parts_of(g)
     try:
-        if via == "formula":        # the density is resolved by formula(), the calculator gets density=
+        if via == "sld-string-table":
+            tkw = dict(dict(kw, **wkw), table=_tab(T) if T else None)
+            full = P.neutron_scattering(text, **tkw)
+            sld = P.neutron_sld(text, **tkw)
+            res = (sld, full[1], full[2]) if full[0] is not None else full
+        elif via == "formula":        # the density is resolved by formula(), the calculator gets density=
             res = P.neutron_scattering(g, density=g.density, **wkw)
         elif via == "carried":      # a Formula that already carries another density; the keyword must win
             f0 = P.formula(build(t["compound"], T), density=t["carried"])
